@@ -55,7 +55,26 @@ def plan(seed, subbatch):
     tf = None
     if cfg.random() < 0.35:
         tf = world.pick_timeframe(cfg, base_s, 2.0, 4.0, allow_finer=False)
-    if kind == "indicator":
+    sparse = cfg.random() < 0.2
+    if sparse:
+        # a dependant whose input is legitimately None for long stretches after warm-up (Supertrend's
+        # long/short are mutually exclusive): the newest readings of the dependant are None for many candles
+        kind = "hexital"
+        p = cfg.randint(2, 8)
+        st = {"cls": "Supertrend", "params": {"period": p, "multiplier": cfg.choice((1.0, 2.0, 3.0))}, "common": {}}
+        field = cfg.choice(("short", "long"))
+        src = f"Supertrend_{p}" + (f"_{tf}" if tf else "") + "." + field
+        dep = cfg.choice((
+            {"cls": "StandardDeviation", "params": {"period": cfg.randint(2, 8), "input_value": src}, "common": {}},
+            {"cls": "Amorph", "analysis": cfg.choice(("highest", "lowest", "rising", "falling")),
+             "params": {"indicator": src, "length": cfg.randint(2, 8)}, "common": {}},
+            {"cls": "Counter", "params": {"input_value": src, "count_value": 0}, "common": {}},
+        ))
+        if tf:
+            st["common"]["timeframe"] = tf
+            dep["common"]["timeframe"] = tf
+        members = [st, dep]
+    elif kind == "indicator":
         spec = sample_spec(cfg, max_period=20)
         if tf:
             spec["common"]["timeframe"] = tf
@@ -115,7 +134,7 @@ def plan(seed, subbatch):
             shift += (end - nxt) + base_s
             shift += (-shift) % tf_s if tf else 0
     return {"format": 1, "property": ID, "seed": seed, "subbatch": subbatch,
-            "config": {"kind": kind, "members": members, "base_s": base_s, "rungs": rungs},
+            "config": {"kind": kind, "members": members, "base_s": base_s, "rungs": rungs, "sparse": sparse},
             "ops": ops, "fired": dict(fired)}
 
 
@@ -169,10 +188,12 @@ def execute(trace, ctx=None):
                         continue
                     n_candles = len(inds[0].candles)
                     measured.append((n_candles, max(per), max(calls), per))
-                    for ind in inds:
+                    for k, ind in enumerate(inds):
                         v = ind.candles[-1].indicators.get(ind.name) if ind.candles else None
-                        if v is None:
+                        if v is None and not (cfg.get("sparse") and k == 1):
                             warm_all = False
+                        if v is None and cfg.get("sparse") and k == 1:
+                            run.stats["reach:rungs_with_none_newest_reading_of_dependant"] += 1
                     run.stats["measured_appends"] += len(per)
             except LibError as e:
                 raise Discard("library-raised:" + e.type)
